@@ -4,9 +4,11 @@ import (
 	"bufio"
 	"context"
 	"encoding/json"
+	"github.com/failsafe-go/failsafe-go/cachepolicy"
 	"os"
 	"regexp"
 	"runtime"
+	"sort"
 	"strings"
 	"sync"
 	"testing"
@@ -33,6 +35,7 @@ type tEnv struct {
 	Id    string `json:"id"`
 	Gap   int64  `json:"gap"` // AsyncCancel: hold the canceller between the two halves of Cancel for this long (hook)
 	Dl    *int64 `json:"dl"`  // Start: the caller's context has a deadline at this instant (absent or -1: none)
+	Ck    string `json:"ck"`  // Start: cache key carried by the caller's context ("" or "none": none)
 }
 
 // gates for the "asyncCancel.mid" hook: ExecutionResult -> how long to hold the canceller
@@ -152,7 +155,7 @@ func runTScenario(t *testing.T, raw []byte) (lines []M, problem string) {
 					}
 				}
 				rec.lines = append(rec.lines, M{"ev": "FnStart", "x": x, "L": len(sc.Stack) + 1, "k": k, "t": rec.vnow(),
-					"att": att, "exe": exe, "ret": ret, "hdg": hdg,
+					"att": att, "exe": exe, "ret": ret, "hdg": hdg, "st": int64(exec.StartTime().Sub(rec.t0) / unit), "el": int64(exec.ElapsedTime() / unit),
 					"lr": resName(exec.LastResult()), "le": projectErrT(le), "hedge": exec.IsHedge(), "canceled": canc})
 				rec.mu.Unlock()
 				f := sc.FnDefault
@@ -203,7 +206,11 @@ func runTScenario(t *testing.T, raw []byte) (lines []M, problem string) {
 				}
 				switch e.What {
 				case "Start":
-					ctx, cancel := context.WithCancel(context.WithValue(context.Background(), xKey, e.X))
+					base := context.WithValue(context.Background(), xKey, e.X)
+					if e.Ck != "" && e.Ck != "none" {
+						base = context.WithValue(base, cachepolicy.CacheKey, e.Ck)
+					}
+					ctx, cancel := context.WithCancel(base)
 					if e.Dl != nil && *e.Dl >= 0 {
 						// the caller's context carries a deadline (a timer of the runtime fires it)
 						ctx, cancel = context.WithDeadline(ctx, rec.t0.Add(time.Duration(*e.Dl)*unit))
@@ -360,7 +367,16 @@ func runTScenario(t *testing.T, raw []byte) (lines []M, problem string) {
 					ctxs[x-1] = append(ctxs[x-1], e.IsCanceled())
 				}
 			}
-			q := M{"ev": "Quiesce", "live": live, "used": used, "cb": cbs, "ctxs": ctxs}
+			caches := M{}
+			for id, c := range bs.caches {
+				ents := []M{}
+				for k, v := range c.m {
+					ents = append(ents, M{"k": k, "v": resName(v)})
+				}
+				sort.Slice(ents, func(a, b int) bool { return ents[a]["k"].(string) < ents[b]["k"].(string) })
+				caches[id] = ents
+			}
+			q := M{"ev": "Quiesce", "live": live, "used": used, "cb": cbs, "ctxs": ctxs, "caches": caches}
 			if live > 0 {
 				q["stacks"] = stacks
 			}
